@@ -71,7 +71,7 @@ func runeConstsCompared(fns []*ssa.Function, ops ...token.Token) map[int64]bool 
 
 func c11() []*Ob {
 	return []*Ob{
-		{Prop: "C11", ID: "C11.1", Engine: "PAIR(char classes)", Floor: 4,
+		{Prop: "C11", ID: "C11.1", Engine: "PAIR(char classes)", Floor: 2,
 			Desc: "word characters agree: the unicode predicates that continue a word are identical on the index side (TextTokenizer.Tokenize) and both query sides (parseSeqQLText, legacy isIndexed closure); the tokenizer's ASCII table is a-z A-Z 0-9 _ *; both query sides add exactly '_' and '*'",
 			Check: func(c *Ctx) {
 				idx := c.Fn("(*tokenizer.TextTokenizer).Tokenize")
@@ -127,7 +127,7 @@ func c11() []*Ob {
 					}
 				}
 			}},
-		{Prop: "C11", ID: "C11.2", Engine: "PAIR(case mapping)", Floor: 3,
+		{Prop: "C11", ID: "C11.2", Engine: "PAIR(case mapping)", Floor: 2,
 			Desc: "case mapping: tokenizer and parser only ever lower-case (no upper/title/fold mapping) and only when case-insensitive: Literal.appendTerm lower-cases under !sensitive, the tokenizers call their lower-casing helper under !caseSensitive",
 			Check: func(c *Ctx) {
 				bad := Callee("strings.ToUpper", "strings.ToTitle", "strings.Title", "bytes.ToUpper", "bytes.ToTitle", "unicode.ToUpper", "unicode.ToTitle", "unicode.SimpleFold")
@@ -183,7 +183,7 @@ func c11() []*Ob {
 					}
 				}
 			}},
-		{Prop: "C11", ID: "C11.3", Engine: "SIBLING+PROV", Floor: 2,
+		{Prop: "C11", ID: "C11.3", Engine: "SIBLING+PROV", Floor: 1,
 			Desc: "'_exists_' is case-sensitive on the query side of both parsers (the indexer emits the field title un-lowered)",
 			Check: func(c *Ctx) {
 				for _, name := range []string{"parser.parseSeqQLFieldFilter", "(*parser.tokenParser).parseLiteral"} {
@@ -304,7 +304,7 @@ func c11() []*Ob {
 					}
 				}
 			}},
-		{Prop: "C11", ID: "C11.4", Engine: "ENUM", Floor: 2,
+		{Prop: "C11", ID: "C11.4", Engine: "ENUM", Floor: 1,
 			Desc: "same types on both sides: the tokenizer types bulk.NewIngestor registers that emit value tokens (keyword, text, path) are the types both parsers' switches accept",
 			Check: func(c *Ctx) {
 				uni := c.P.EnumConsts("seq", "TokenizerType")
@@ -396,7 +396,7 @@ func c11() []*Ob {
 					c.Site(token.NoPos, "no function of packages tokenizer and proxy/bulk appends to a view of its input (%d functions)", total)
 				}
 			}},
-		{Prop: "C11", ID: "C11.5", Engine: "PROV", Floor: 2,
+		{Prop: "C11", ID: "C11.5", Engine: "PROV", Floor: 1,
 			Desc: "one switch for both sides: conf.CaseSensitive (query side) and IngestorConfig.CaseSensitive (index side) are set from the same command-line flag",
 			Check: func(c *Ctx) {
 				var flagSrc []ssa.Value
